@@ -122,6 +122,12 @@ pub fn time_ops(full: bool) -> Vec<Op1> {
       Op1::BufferWithCountAndTime(2, 2),
       Op1::SampleInterval(2),
       Op1::TakeUntilTimer(2),
+      // boundary parameters: zero-length delays and windows, an instant in the past
+      Op1::Delay(0),
+      Op1::DelayAt(-2),
+      Op1::Debounce(0),
+      Op1::ThrottleTime(0, Edge::Tailing),
+      Op1::ThrottleTime(0, Edge::All),
     ]);
   }
   v
@@ -145,6 +151,7 @@ pub fn cold_sources() -> Vec<Src> {
     Src::Iter(vec![]),
     Src::Iter(vec![0, 1, 2]),
     Src::Iter(vec![2, 1, 1, 0]),
+    Src::IntoIter(vec![0, 1]),
     Src::Create(vec![N(0), N(1), C]),
     Src::Create(vec![N(1), NoteSpec::Err(E::E0)]),
     Src::Create(vec![N(2), N(0)]),
